@@ -193,7 +193,8 @@ theorem range128 : List.range 128 = List.range 126 ++ [126, 127] := by decide
 population `R` (a callback for `a` agrees iff it is an accepted reply when `R a`, and a timeout or a
 non-accepted reply when `¬ R a`; a lost reply of a member of `R` therefore resets the count).  Once
 the last 126 callbacks — one complete sweep, hence a fortiori "two full address sweeps" — agree, and
-no known station ever sent a non-accepted reply (`noStale`; always true for the live list), the
+the bit after every reply was `accepts` of it (`noStale`; always true for both applications, see
+`bit_eq_noStale`), the
 station set is exactly `R` restricted to 0..125, whatever happened before. -/
 theorem list_tracks {A : App ε} (hS : A.Spec) (own : Nat) (R : Nat → Bool) (ops : List Op) (g : Ghost ε)
     (h : grun A own R Ghost.init ops = .ok g) (hst : 126 ≤ g.stable) (hns : g.noStale = true) :
@@ -219,8 +220,10 @@ theorem list_tracks {A : App ε} (hS : A.Spec) (own : Nat) (R : Nat → Bool) (o
     rw [hI.tr.bit hns w, hb]
     cases R w <;> rfl
 
-/-- For the live list every reply is accepted, so `noStale` holds after every history. -/
-theorem accepts_all_noStale {A : App ε} (hacc : ∀ t, A.accepts t = true) (own : Nat) (R : Nat → Bool)
+/-- In both applications the station bit after a reply is `accepts` of that reply (live list: always
+set; scanner since c0f8a92: set iff the reply is a well-formed diagnostics response), so `noStale`
+holds after every history. -/
+theorem bit_eq_noStale {A : App ε} (hacc : ∀ old t, A.bit old t = A.accepts t) (own : Nat) (R : Nat → Bool)
     (ops : List Op) : ∀ (g0 g : Ghost ε), g0.noStale = true → grun A own R g0 ops = .ok g → g.noStale = true := by
   induction ops with
   | nil => intro g0 g h0 h; simp only [grun] at h; cases h; exact h0
@@ -259,22 +262,17 @@ theorem livelist_list_tracks (own : Nat) (pop : Nat → Bool) (ops : List Op) (g
     (h : grun llApp own (fun a => pop a && (a != own)) Ghost.init ops = .ok g) (hst : 126 ≤ g.stable) :
     LiveList.stations g.s = (List.range 126).filter (fun a => pop a && (a != own)) :=
   list_tracks llApp_spec own _ ops g h hst
-    (accepts_all_noStale (fun _ => rfl) own _ ops Ghost.init g rfl h)
+    (bit_eq_noStale (fun _ _ => rfl) own _ ops Ghost.init g rfl h)
 
-/-- DP scanner, as far as it holds (see `scanner_list_tracks_full_false`): under the additional
-hypothesis that no *known* peripheral ever answered with something that is not a well-formed
-diagnostics response, the scanner's station set is exactly the set `R` of addresses that answer
-with a well-formed diagnostics response. -/
-theorem scanner_list_tracks_partial (own : Nat) (R : Nat → Bool) (ops : List Op) (g : Ghost DpScanEvent)
-    (h : grun scApp own R Ghost.init ops = .ok g) (hst : 126 ≤ g.stable) (hns : g.noStale = true) :
+/-- DP scanner (full statement, no extra hypothesis since the repair c0f8a92): for every history and
+every own address, once the last 126 callbacks agree with `R` — the addresses in `R` answered with a
+well-formed diagnostics response, every other address timed out *or answered with anything else* —
+the scanner's station set is exactly `R` within 0..125. -/
+theorem scanner_list_tracks_full (own : Nat) (R : Nat → Bool) (ops : List Op) (g : Ghost DpScanEvent)
+    (h : grun scApp own R Ghost.init ops = .ok g) (hst : 126 ≤ g.stable) :
     Scanner.stations g.s = (List.range 126).filter R :=
-  list_tracks scApp_spec own R ops g h hst hns
-
-/-- The full statement of C18 for the scanner (no `noStale` hypothesis). -/
-def scanner_list_tracks_full : Prop :=
-  ∀ (own : Nat) (R : Nat → Bool) (ops : List Op) (g : Ghost DpScanEvent),
-    grun scApp own R Ghost.init ops = .ok g → 126 ≤ g.stable →
-    Scanner.stations g.s = (List.range 126).filter R
+  list_tracks scApp_spec own R ops g h hst
+    (bit_eq_noStale (fun _ _ => rfl) own R ops Ghost.init g rfl h)
 
 /-- Evaluate a (decidable) predicate on the outcome of a history; `false` if it panicked / was refused. -/
 def holds (r : Res (Ghost ε)) (p : Ghost ε → Bool) : Bool :=
@@ -301,26 +299,17 @@ def diagReply (a own : UInt8) : Telegram :=
   .data { da := own, sa := a, dsap := SAP_MASTER_MS0, ssap := SAP_SLAVE_DIAGNOSIS, fc := .response .slave .dataLow }
     [0x02, 0x05, 0x00, 0x02, 0x12, 0x34]
 
-/-- Witness history of the stale entry: address 0 is found as a DP peripheral, every other address
-is silent; from the next sweep on address 0 answers with a short confirmation (it is no DP
-peripheral any more, but something still answers).  The population is then stable (nobody answers
-with a diagnostics response) for a complete sweep — and would stay so for ever — yet the scanner
-still knows peripheral 0. -/
+/-- The history that witnessed the former finding `K_C18_scanner_stale`: address 0 is found as a DP
+peripheral, every other address is silent; from the next sweep on address 0 answers with a short
+confirmation (it is no DP peripheral any more, but something still answers). -/
 def staleOps : List Op :=
   sweepOps (fun a => if a = 0 then some (diagReply 0 2) else none) ++ visitOps 0 (some .sc)
 
-/-- The real `DpScanner` does **not** satisfy the full statement: finding `K_C18_scanner_stale`. -/
-theorem scanner_list_tracks_full_false : ¬ scanner_list_tracks_full := by
-  intro hfull
-  have key : holds (grun scApp 2 (fun _ => false) Ghost.init staleOps)
-      (fun g => decide (126 ≤ g.stable) && decide (Scanner.stations g.s = [0])) = true := by
-    decide +kernel
-  obtain ⟨g, hg, hp⟩ := holds_ok key
-  simp only [Bool.and_eq_true, decide_eq_true_eq] at hp
-  have := hfull 2 (fun _ => false) staleOps g hg hp.1
-  rw [hp.2] at this
-  revert this
-  decide
+/-- Regression of the repaired behaviour: the scanner now reports peripheral 0 lost and forgets it. -/
+theorem stale_peripheral_is_lost :
+    holds (grun scApp 2 (fun _ => false) Ghost.init staleOps)
+      (fun g => decide (126 ≤ g.stable) && decide (Scanner.stations g.s = []) && decide (g.evs 0 = [false, true])) = true := by
+  decide +kernel
 
 /-! ### events_alternate -/
 
@@ -404,7 +393,8 @@ theorem scanner_events_alternate (own : Nat) (R : Nat → Bool) (ops : List Op) 
 /-- What a scanner event says: for a reply `t` from an address `a < 128`, the pending event is
 `PeripheralFound` (address unknown) / `PeripheralRequery` (known) carrying
 ident = BE16(pdu[4..6]) and the master address pdu[3] (255 = none) exactly when `t` is a data telegram
-with DSAP 62, SSAP 60 and at least 6 PDU bytes; otherwise there is no event and the bit is unchanged. -/
+with DSAP 62, SSAP 60 and at least 6 PDU bytes; otherwise a known peripheral is forgotten with a
+`PeripheralLost` event, and for an unknown address nothing happens. -/
 theorem scanner_reply_event (s : Sweep DpScanEvent) (a : Nat) (t : Telegram) (known : Bool) (hk : s.stations[a]? = some known) :
     (∀ h pdu, t = .data h pdu → h.dsap = some 62 → h.ssap = some 60 → 6 ≤ pdu.length →
       let desc : DpDesc := ⟨a, (pdu.getD 4 0).toNat * 256 + (pdu.getD 5 0).toNat,
@@ -412,7 +402,8 @@ theorem scanner_reply_event (s : Sweep DpScanEvent) (a : Nat) (t : Telegram) (kn
       Scanner.receiveReply s a t =
         .ok { s with done := true, pending := some (if known then .requery desc else .found desc), stations := s.stations.set a true }) ∧
     ((∀ h pdu, t = .data h pdu → ¬ (h.dsap = some 62 ∧ h.ssap = some 60 ∧ 6 ≤ pdu.length)) →
-      Scanner.receiveReply s a t = .ok { s with done := true, pending := none }) := by
+      Scanner.receiveReply s a t =
+        .ok { s with done := true, pending := if known then some (.lost a) else none, stations := s.stations.set a false }) := by
   constructor
   · intro h pdu ht hd hs hl
     subst ht
@@ -442,7 +433,9 @@ theorem scanner_reply_event (s : Sweep DpScanEvent) (a : Nat) (t : Telegram) (kn
         · simp [h1]
       | token _ _ => rfl
       | sc => rfl
-    simp [Scanner.receiveReply, hk, hp]
+    cases known with
+    | true => simp [Scanner.receiveReply, hk, hp]
+    | false => simp [Scanner.receiveReply, hk, hp, set_self _ _ _ hk]
 
 /-- Why `goodReplies` is needed for the live list: a short confirmation as "reply" to the status
 request sets the bit without a `Discovered` event (the history is allowed by the contract). -/
